@@ -1,4 +1,5 @@
 //! C06 — Parameter::{new,set,update,interpolated_value}.
+// @deps info
 use super::*;
 use crate::kani_support::*;
 use crate::info::kani_proofs::{empty_info, mock_info};
@@ -240,4 +241,52 @@ fn c06_3b_interpolated_value_range() {
     let w = p.interpolated_value(b);
     if a <= b && prev <= raw { assert!(v <= w, "C06.3b: monotone within the chunk"); }
     kani::cover!(prev < raw && a > 0.0 && a < b);
+}
+
+// ----------------------------------------------------------------------------------------------------------------
+// helpers for other harness modules (Parameter's fields are private to this module)
+// ----------------------------------------------------------------------------------------------------------------
+#[derive(Clone, Copy, PartialEq)]
+pub(crate) enum PView<T> {
+    Idle(T),
+    IdleLinked,
+    Tweening { start: T, target: Option<T>, time: f64, tween: Tween },
+}
+
+pub(crate) fn view<T: Tweenable>(p: &Parameter<T>) -> (PView<T>, T, T, bool) {
+    let v = match &p.state {
+        State::Idle { value: Value::Fixed(v) } => PView::Idle(*v),
+        State::Idle { .. } => PView::IdleLinked,
+        State::Tweening { start, target, time, tween } => PView::Tweening {
+            start: *start,
+            target: match target { Value::Fixed(t) => Some(*t), _ => None },
+            time: *time,
+            tween: *tween,
+        },
+    };
+    (v, p.raw_value, p.previous_raw_value, p.stagnant)
+}
+
+pub(crate) fn make<T: Tweenable>(v: PView<T>, raw: T, prev: T, stagnant: bool) -> Parameter<T> {
+    let state = match v {
+        PView::Idle(x) => State::Idle { value: Value::Fixed(x) },
+        PView::IdleLinked => State::Idle { value: Value::Fixed(raw) },
+        PView::Tweening { start, target, time, tween } => State::Tweening { start, target: Value::Fixed(target.unwrap_or(raw)), time, tween },
+    };
+    Parameter { state, raw_value: raw, previous_raw_value: prev, stagnant }
+}
+
+pub(crate) static mut PU_N: usize = 0;
+pub(crate) static mut PU_DT: [f64; 4] = [0.0; 4];
+pub(crate) static mut PU_RET: [bool; 4] = [false; 4];
+
+/// Recording stand-in for `Parameter::update` (contract: C06.2a-e): returns an arbitrary "just finished" flag,
+/// records dt; leaves the parameter untouched.
+pub(crate) fn param_update_rec<T: Tweenable>(_this: &mut Parameter<T>, dt: f64, _info: &Info) -> bool {
+    let r: bool = kani::any();
+    unsafe {
+        if PU_N < 4 { PU_DT[PU_N] = dt; PU_RET[PU_N] = r; }
+        PU_N += 1;
+    }
+    r
 }
